@@ -1,8 +1,558 @@
 import J5V.Pipe.Service
 import J5V.Pipe.Walk
 import J5V.Pipe.List
-/-! # Lemmas for C16 -/
+/-! # Lemmas for C16 (path rewrite, names, request split) -/
 namespace J5V.Pipe
 open J5V.Go J5V.Compile
+
+/-! ## `strings.Split` / `strings.Join` on one separator byte -/
+
+theorem splitOnByte_ne_nil (c : Nat) (s : Str) : splitOnByte c s ≠ [] := by
+  induction s with
+  | nil => simp [splitOnByte]
+  | cons v rest ih =>
+    unfold splitOnByte
+    split
+    · simp
+    · split <;> simp
+
+theorem splitOnByte_no_sep (c : Nat) (s : Str) : ∀ p ∈ splitOnByte c s, c ∉ p := by
+  induction s with
+  | nil => intro p hp; simp [splitOnByte] at hp; subst hp; simp
+  | cons v rest ih =>
+    intro p hp
+    unfold splitOnByte at hp
+    split at hp
+    · rcases List.mem_cons.mp hp with h | h
+      · subst h; simp
+      · exact ih p h
+    · rename_i hvc
+      split at hp
+      · rename_i hnil; exact absurd hnil (splitOnByte_ne_nil c rest)
+      · rename_i q qs hq
+        rcases List.mem_cons.mp hp with h | h
+        · subst h
+          intro hm
+          rcases List.mem_cons.mp hm with h1 | h1
+          · exact hvc h1.symm
+          · exact ih q (by rw [hq]; simp) h1
+        · exact ih p (by rw [hq]; simp [h])
+
+theorem joinWith_cons_cons (sep a b : Str) (rest : List Str) :
+    joinWith sep (a :: b :: rest) = a ++ sep ++ joinWith sep (b :: rest) := by
+  simp [joinWith]
+
+theorem joinWith_splitOnByte (c : Nat) (s : Str) : joinWith [c] (splitOnByte c s) = s := by
+  induction s with
+  | nil => simp [splitOnByte, joinWith]
+  | cons v rest ih =>
+    unfold splitOnByte
+    split
+    · rename_i hvc
+      cases hsp : splitOnByte c rest with
+      | nil => exact absurd hsp (splitOnByte_ne_nil c rest)
+      | cons q qs =>
+        rw [joinWith_cons_cons, ← hsp, ih]; simp [hvc]
+    · split
+      · rename_i hnil; exact absurd hnil (splitOnByte_ne_nil c rest)
+      · rename_i q qs hq
+        rw [hq] at ih
+        cases qs with
+        | nil => simp [joinWith] at ih ⊢; exact ih
+        | cons r rs =>
+          rw [joinWith_cons_cons] at ih ⊢
+          simp at ih ⊢; exact ih
+
+theorem splitOnByte_append_sep (c : Nat) (a rest : Str) (ha : c ∉ a) :
+    splitOnByte c (a ++ c :: rest) = a :: splitOnByte c rest := by
+  induction a with
+  | nil => simp [splitOnByte]
+  | cons v vs ih =>
+    have hv : v ≠ c := fun h => ha (by simp [h])
+    have hvs : c ∉ vs := fun h => ha (by simp [h])
+    simp only [List.cons_append]
+    rw [splitOnByte]
+    simp [hv, ih hvs]
+
+theorem splitOnByte_no_sep_self (c : Nat) (a : Str) (ha : c ∉ a) : splitOnByte c a = [a] := by
+  induction a with
+  | nil => simp [splitOnByte]
+  | cons v vs ih =>
+    have hv : v ≠ c := fun h => ha (by simp [h])
+    have hvs : c ∉ vs := fun h => ha (by simp [h])
+    rw [splitOnByte]; simp [hv, ih hvs]
+
+/-- splitting a join gives the parts back when no part contains the separator -/
+theorem splitOnByte_joinWith (c : Nat) (parts : List Str) (hne : parts ≠ [])
+    (h : ∀ p ∈ parts, c ∉ p) : splitOnByte c (joinWith [c] parts) = parts := by
+  induction parts with
+  | nil => exact absurd rfl hne
+  | cons a rest ih =>
+    cases rest with
+    | nil => simp [joinWith]; exact splitOnByte_no_sep_self c a (h a (by simp))
+    | cons b bs =>
+      rw [joinWith_cons_cons]
+      have : a ++ [c] ++ joinWith [c] (b :: bs) = a ++ c :: joinWith [c] (b :: bs) := by simp
+      rw [this, splitOnByte_append_sep c a _ (h a (by simp))]
+      rw [ih (by simp) (fun p hp => h p (by simp [hp]))]
+
+/-! ## `ToSnake` never produces a byte that is not in its input, except `_` and lower-cased capitals -/
+
+theorem mem_trimLeft (s : Str) : ∀ c ∈ trimLeft s, c ∈ s := by
+  induction s with
+  | nil => simp [trimLeft]
+  | cons v rest ih =>
+    intro c hc
+    unfold trimLeft at hc
+    split at hc
+    · exact List.mem_cons_of_mem _ (ih c hc)
+    · exact hc
+
+theorem mem_trimSpace (s : Str) : ∀ c ∈ trimSpace s, c ∈ s := by
+  intro c hc
+  unfold trimSpace at hc
+  have h1 := mem_trimLeft _ c (List.mem_reverse.mp hc)
+  exact mem_trimLeft s c (List.mem_reverse.mp h1)
+
+theorem mem_ite_95 {b : Bool} {c : Nat} (h : c ∈ (if b = true then [95] else ([] : List Nat))) :
+    c = 95 := by
+  cases b <;> simp at h
+  exact h
+
+/-- every byte `snakeGo false` writes is `_`, an input byte, or the lower case of an input capital -/
+theorem mem_snakeGo (s : Str) : ∀ prev c, c ∈ snakeGo false prev s →
+    c = 95 ∨ c ∈ s ∨ ∃ v ∈ s, isCap v = true ∧ c = v + 32 := by
+  induction s with
+  | nil => intro prev c hc; simp [snakeGo] at hc
+  | cons v rest ih =>
+    intro prev c hc
+    have hw : ∀ w, w = (if (isLow v && false) = true then v - 32 else if (isCap v && !false) = true then v + 32 else v) →
+        w = v ∨ (isCap v = true ∧ w = v + 32) := by
+      intro w hw
+      by_cases hcap : isCap v = true <;> simp [hcap] at hw
+      · right; exact ⟨hcap, hw⟩
+      · left; exact hw
+    have lift : (c = 95 ∨ c ∈ rest ∨ ∃ u ∈ rest, isCap u = true ∧ c = u + 32) →
+        (c = 95 ∨ c ∈ v :: rest ∨ ∃ u ∈ v :: rest, isCap u = true ∧ c = u + 32) := by
+      rintro (h | h | ⟨u, hu, h⟩)
+      · exact Or.inl h
+      · exact Or.inr (Or.inl (List.mem_cons_of_mem _ h))
+      · exact Or.inr (Or.inr ⟨u, List.mem_cons_of_mem _ hu, h⟩)
+    have hwc : ∀ w, (w = v ∨ (isCap v = true ∧ w = v + 32)) → c = w →
+        (c = 95 ∨ c ∈ v :: rest ∨ ∃ u ∈ v :: rest, isCap u = true ∧ c = u + 32) := by
+      intro w hw hcw
+      rcases hw with h | ⟨h1, h2⟩
+      · right; left; rw [hcw, h]; simp
+      · right; right; exact ⟨v, by simp, h1, by rw [hcw, h2]⟩
+    unfold snakeGo at hc
+    simp only [] at hc
+    cases rest with
+    | nil =>
+      simp only [List.mem_cons] at hc
+      rcases hc with h | h
+      · split at h
+        · exact Or.inl h
+        · exact hwc _ (hw _ rfl) h
+      · exact lift (ih _ c h)
+    | cons next more =>
+      simp only [] at hc
+      split at hc
+      · rcases List.mem_append.mp hc with h | h
+        · rcases List.mem_append.mp h with h | h
+          · rcases List.mem_append.mp h with h | h
+            · exact Or.inl (mem_ite_95 h)
+            · exact hwc _ (hw _ rfl) (by simpa using h)
+          · exact Or.inl (mem_ite_95 h)
+        · exact lift (ih _ c h)
+      · simp only [List.mem_cons] at hc
+        rcases hc with h | h
+        · split at h
+          · exact Or.inl h
+          · exact hwc _ (hw _ rfl) h
+        · exact lift (ih _ c h)
+
+theorem toSnake_no_slash (s : Str) (h : (47 : Nat) ∉ s) : (47 : Nat) ∉ toSnake s := by
+  intro hm
+  unfold toSnake at hm
+  rcases mem_snakeGo _ none 47 hm with h1 | h1 | ⟨v, hv, hcap, h1⟩
+  · omega
+  · exact h (mem_trimSpace s 47 h1)
+  · unfold isCap at hcap; simp at hcap; omega
+
+/-! ## the path round trip -/
+
+theorem fieldByName_fieldsOf (props : List Str) (name : Str) (hmem : name ∈ props)
+    (hinj : SnakeInjective props) :
+    fieldByName (fieldsOf props) (toSnake name) = some { name := toSnake name, json := name } := by
+  induction props with
+  | nil => simp at hmem
+  | cons a rest ih =>
+    unfold fieldByName fieldsOf
+    simp only [List.map_cons, List.find?_cons]
+    by_cases h : toSnake a = toSnake name
+    · have : a = name := hinj a (by simp) name hmem h
+      subst this; simp
+    · have hne : name ≠ a := fun e => h (by rw [e])
+      have hm : name ∈ rest := by
+        rcases List.mem_cons.mp hmem with e | e
+        · exact absurd e hne
+        · exact e
+      have hinj' : SnakeInjective rest := fun x hx y hy e =>
+        hinj x (List.mem_cons_of_mem _ hx) y (List.mem_cons_of_mem _ hy) e
+      have := ih hm hinj'
+      unfold fieldByName fieldsOf at this
+      have hb : (toSnake a == toSnake name) = false := by simpa using h
+      simp [hb, this]
+
+theorem unrewritePart_param (props : List Str) (name : Str) (hmem : name ∈ props)
+    (hinj : SnakeInjective props) :
+    unrewritePart (fieldsOf props) (b!"{" ++ toSnake name ++ b!"}") = .ok (58 :: name) := by
+  have hform : (b!"{" ++ toSnake name ++ b!"}" : Str) = 123 :: (toSnake name ++ [125]) := by simp
+  rw [hform]
+  have hbr : isBraced (123 :: (toSnake name ++ [125])) = true := by
+    unfold isBraced
+    have : (123 :: (toSnake name ++ [125])).getLast? = some 125 := by
+      rw [show (123 :: (toSnake name ++ [125])) = (123 :: toSnake name) ++ [125] by simp]
+      exact List.getLast?_concat
+    simp [this]
+  have hinner : ((123 :: (toSnake name ++ [125])).drop 1).dropLast = toSnake name := by
+    simp
+  unfold unrewritePart
+  simp only [hbr, hinner, fieldByName_fieldsOf props name hmem hinj]
+  simp
+
+theorem containsSpecial_of_head (part : Str) (h : part.head? = some 123) :
+    containsSpecial part = true := by
+  cases part with
+  | nil => simp at h
+  | cons v rest =>
+    simp at h; subst h
+    simp [containsSpecial]
+
+theorem unrewritePart_literal (fields : List PField) (part : Str)
+    (hclean : containsSpecial part = false) : unrewritePart fields part = .ok part := by
+  unfold unrewritePart
+  by_cases hnil : part = []
+  · simp [hnil]
+  · have hnb : isBraced part = false := by
+      cases hb : isBraced part with
+      | false => rfl
+      | true =>
+        unfold isBraced at hb
+        simp only [Bool.and_eq_true, beq_iff_eq] at hb
+        rw [containsSpecial_of_head part hb.1] at hclean
+        exact absurd hclean (by simp)
+    simp [hnil, hnb, hclean]
+
+theorem paramName?_eq_some (part name : Str) (h : paramName? part = some name) : part = 58 :: name := by
+  unfold paramName? at h
+  split at h
+  · simp at h; subst h; rfl
+  · simp at h
+
+/-- what `rewrite` says when it succeeds -/
+theorem rewrite_ok (props : List Str) (path p' : Str) (h : rewrite props path = .ok p') :
+    (∀ part ∈ splitOnByte 47 path, ∀ name, paramName? part = some name → name ∈ props)
+    ∧ p' = joinWith b!"/" ((splitOnByte 47 path).map (fun part => (rewritePart props part).1)) := by
+  unfold rewrite at h
+  simp only [] at h
+  split at h
+  · rename_i hall
+    refine ⟨?_, ?_⟩
+    · intro part hp name hn
+      rw [List.all_eq_true] at hall
+      have := hall (rewritePart props part) (List.mem_map.mpr ⟨part, hp, rfl⟩)
+      unfold rewritePart at this
+      simp only [hn] at this
+      simpa using this
+    · cases h; simp [List.map_map]; rfl
+  · cases h
+
+theorem rewritePart_no_slash (props : List Str) (part : Str) (h : (47 : Nat) ∉ part) :
+    (47 : Nat) ∉ (rewritePart props part).1 := by
+  unfold rewritePart
+  cases hn : paramName? part with
+  | none => simpa using h
+  | some name =>
+    have hp := paramName?_eq_some part name hn
+    have hname : (47 : Nat) ∉ name := fun hm => h (by rw [hp]; exact List.mem_cons_of_mem _ hm)
+    have := toSnake_no_slash name hname
+    simp only []
+    intro hm
+    simp only [List.mem_append, List.mem_cons, List.mem_nil_iff, or_false] at hm
+    rcases hm with (h1 | h1) | h1
+    · omega
+    · exact this h1
+    · omega
+
+theorem unrewriteParts_rewritten (props : List Str) (hinj : SnakeInjective props) (parts : List Str)
+    (hparam : ∀ part ∈ parts, ∀ name, paramName? part = some name → name ∈ props)
+    (hlit : ∀ part ∈ parts, paramName? part = none → containsSpecial part = false) :
+    unrewriteParts (fieldsOf props) (parts.map (fun part => (rewritePart props part).1)) = .ok parts := by
+  induction parts with
+  | nil => simp [unrewriteParts]
+  | cons part rest ih =>
+    have ih' := ih (fun p hp => hparam p (List.mem_cons_of_mem _ hp))
+      (fun p hp => hlit p (List.mem_cons_of_mem _ hp))
+    have hone : unrewritePart (fieldsOf props) (rewritePart props part).1 = .ok part := by
+      unfold rewritePart
+      cases hn : paramName? part with
+      | none =>
+        simp only []
+        exact unrewritePart_literal _ part (hlit part (by simp) hn)
+      | some name =>
+        simp only []
+        rw [unrewritePart_param props name (hparam part (by simp) name hn) hinj,
+          paramName?_eq_some part name hn]
+    simp only [List.map_cons, unrewriteParts, hone, ih']
+
+theorem rewritten_parts_no_slash (props : List Str) (path : Str) :
+    ∀ p ∈ (splitOnByte 47 path).map (fun part => (rewritePart props part).1), (47 : Nat) ∉ p := by
+  intro p hp
+  obtain ⟨part, hpart, rfl⟩ := List.mem_map.mp hp
+  exact rewritePart_no_slash props part (splitOnByte_no_sep 47 path part hpart)
+
+theorem path_roundtrip (props : List Str) (path p' : Str)
+    (hlit : LiteralsClean path) (hinj : SnakeInjective props) (h : rewrite props path = .ok p') :
+    unrewrite (fieldsOf props) p' = .ok path := by
+  obtain ⟨hparam, hp'⟩ := rewrite_ok props path p' h
+  subst hp'
+  unfold unrewrite
+  rw [splitOnByte_joinWith 47 _ (by simpa using splitOnByte_ne_nil 47 path)
+    (rewritten_parts_no_slash props path)]
+  rw [unrewriteParts_rewritten props hinj _ hparam hlit]
+  simp only []
+  rw [joinWith_splitOnByte]
+
+/-! ### the consumer never reaches the slice expression with a bad range -/
+
+theorem unrewritePart_no_panic (fields : List PField) (part : Str) (w : String) :
+    unrewritePart fields part ≠ .panic w := by
+  unfold unrewritePart
+  by_cases hnil : part = []
+  · simp [hnil]
+  · simp only [hnil, if_false]
+    by_cases hb : isBraced part = true
+    · simp only [hb, if_true]
+      have hlen : ¬ part.length < 2 := by
+        intro hl
+        match part, hnil, hl with
+        | [v], _, _ =>
+          unfold isBraced at hb
+          simp at hb
+          omega
+      simp only [hlen, if_false]
+      split <;> simp
+    · have hb' : isBraced part = false := by simpa using hb
+      simp only [hb', Bool.false_eq_true, if_false]
+      split <;> simp
+
+theorem unrewriteParts_no_panic (fields : List PField) (parts : List Str) :
+    ∀ w, unrewriteParts fields parts ≠ .panic w := by
+  induction parts with
+  | nil => simp [unrewriteParts]
+  | cons p ps ih =>
+    intro w
+    unfold unrewriteParts
+    cases h1 : unrewritePart fields p with
+    | ok q =>
+      simp only []
+      cases h2 : unrewriteParts fields ps with
+      | ok qs => simp
+      | err e => simp
+      | panic w' => exact absurd h2 (ih w')
+    | err e => simp
+    | panic w' => exact absurd h1 (unrewritePart_no_panic fields p w')
+
+/-! ## names -/
+
+theorem hasSuffix_append (x suf : Str) : hasSuffix suf (x ++ suf) = true := by
+  unfold hasSuffix
+  exact List.isSuffixOf_iff_suffix.mpr (List.suffix_append x suf)
+
+theorem getLast?_of_hasSuffix (suf l : Str) (h : hasSuffix suf l = true) (a : Nat)
+    (ha : suf.getLast? = some a) : l.getLast? = some a := by
+  unfold hasSuffix at h
+  obtain ⟨t, rfl⟩ := List.isSuffixOf_iff_suffix.mp h
+  rw [List.getLast?_append, ha]; rfl
+
+theorem classify_service (n : Str) : classify (serviceName n) = .service := by
+  unfold classify serviceName
+  simp [hasSuffix_append]
+
+theorem classify_topic_suffix (x : Str) : classify (x ++ b!"Topic") = .topic := by
+  have hlast : (x ++ b!"Topic").getLast? = some 99 := by
+    rw [List.getLast?_append]; rfl
+  have no (suf : Str) (a : Nat) (ha : suf.getLast? = some a) (hne : a ≠ 99) :
+      hasSuffix suf (x ++ b!"Topic") = false := by
+    cases h : hasSuffix suf (x ++ b!"Topic") with
+    | false => rfl
+    | true =>
+      have := getLast?_of_hasSuffix suf _ h a ha
+      rw [hlast] at this
+      cases this; exact absurd rfl hne
+  unfold classify
+  rw [no b!"Service" 101 rfl (by decide), no b!"Sandbox" 120 rfl (by decide),
+    no b!"Events" 115 rfl (by decide), hasSuffix_append]
+  simp
+
+theorem classify_topic (n : Str) : classify (topicName n) = .topic := classify_topic_suffix _
+
+theorem acceptMethod_produced (pkg m : Str) (hasResp : Bool) :
+    acceptMethod pkg m { pkg := pkg, name := requestName m } (producedOutput pkg m hasResp) = true := by
+  unfold acceptMethod producedOutput
+  cases hasResp
+  · simp only [Bool.false_eq_true, if_false]
+    have : (MsgRef.full { pkg := b!"google.api", name := b!"HttpBody" }) = httpBodyFull := by decide
+    simp [this]
+  · simp
+
+theorem acceptTopicMethod_produced (pkg m : Str) :
+    acceptTopicMethod pkg m { pkg := pkg, name := messageName m }
+      { pkg := b!"google.protobuf", name := b!"Empty" } = true := by
+  unfold acceptTopicMethod
+  have : (MsgRef.full { pkg := b!"google.protobuf", name := b!"Empty" }) = emptyFull := by decide
+  simp [this]
+
+theorem responseName_not_raw (m : Str) : isRawResponse (responseName m) = false := by
+  unfold isRawResponse responseName
+  cases h : (m ++ b!"Response" == b!"HttpBody") with
+  | false => rfl
+  | true =>
+    have e : m ++ b!"Response" = b!"HttpBody" := by simpa using h
+    have h1 : (m ++ b!"Response").getLast? = some 101 := by rw [List.getLast?_append]; rfl
+    rw [e] at h1
+    exact absurd h1 (by decide)
+
+theorem httpBody_is_raw (pkg m : Str) : isRawResponse (producedOutput pkg m false).name = true := by
+  simp [producedOutput, isRawResponse]
+
+/-! ## request split -/
+
+theorem fillRequest_all_perm (hb : Bool) (path : Str) (props : List Str) :
+    (fillRequest hb path props).all.Perm props := by
+  unfold fillRequest Request.all
+  cases hb <;> simp [List.filter_append_perm]
+
+theorem fillRequest_path (hb : Bool) (path : Str) (props : List Str) :
+    (fillRequest hb path props).path = props.filter (fun p => (pathParamNames path).contains p) := by
+  unfold fillRequest; cases hb <;> rfl
+
+theorem fillRequest_rest (hb : Bool) (path : Str) (props : List Str) :
+    (fillRequest hb path props).query ++ (fillRequest hb path props).body.getD [] =
+      props.filter (fun p => !(pathParamNames path).contains p) := by
+  unfold fillRequest; cases hb <;> simp
+
+theorem mem_pathParamNames (path name : Str) :
+    name ∈ pathParamNames path ↔ ∃ part ∈ splitOnByte 47 path, paramName? part = some name := by
+  unfold pathParamNames
+  exact List.mem_filterMap
+
+theorem rewrite_ok_of_params (props : List Str) (path : Str)
+    (h : ∀ n ∈ pathParamNames path, n ∈ props) :
+    rewrite props path =
+      .ok (joinWith b!"/" ((splitOnByte 47 path).map (fun part => (rewritePart props part).1))) := by
+  unfold rewrite
+  simp only []
+  have hall : ((splitOnByte 47 path).map (rewritePart props)).all (·.2) = true := by
+    rw [List.all_eq_true]
+    intro x hx
+    obtain ⟨part, hp, rfl⟩ := List.mem_map.mp hx
+    unfold rewritePart
+    cases hn : paramName? part with
+    | none => rfl
+    | some name =>
+      simp only []
+      exact List.contains_iff_mem.mpr (h name ((mem_pathParamNames path name).mpr ⟨part, hp, hn⟩))
+  simp [hall, List.map_map]
+  rfl
+
+/-! ## the composed chain -/
+
+theorem mapMOutcome_ok {α β} (f : α → Outcome β) (g : α → β) (l : List α)
+    (h : ∀ a ∈ l, f a = .ok (g a)) : mapMOutcome f l = .ok (l.map g) := by
+  induction l with
+  | nil => rfl
+  | cons a as ih =>
+    unfold mapMOutcome
+    rw [h a (by simp), ih (fun x hx => h x (List.mem_cons_of_mem _ hx))]
+    rfl
+
+theorem fieldsOf_json (props : List Str) : (fieldsOf props).map (·.json) = props := by
+  induction props with
+  | nil => rfl
+  | cons a rest ih => unfold fieldsOf at ih ⊢; simp [ih]
+
+/-- the descriptor-level method the compiler emits for a valid declaration -/
+def compiledMethod (pkg : Str) (base : Option Str) (m : MethodDecl) : DMethod :=
+  { name := m.name
+    input := { pkg := pkg, name := requestName m.name }
+    output := producedOutput pkg m.name m.hasResp
+    verb := m.verb
+    pattern := joinWith b!"/" ((splitOnByte 47 (resolvedPath base m.path)).map
+      (fun part => (rewritePart m.req part).1))
+    fields := fieldsOf m.req }
+
+theorem compileMethod_valid (pkg : Str) (base : Option Str) (m : MethodDecl) (h : ValidMethod base m) :
+    compileMethod pkg base m = .ok (compiledMethod pkg base m) := by
+  unfold compileMethod
+  rw [rewrite_ok_of_params m.req _ h.2.2]
+  rfl
+
+def structuredMethod (base : Option Str) (m : MethodDecl) (pkg : Str) : SMethod :=
+  { name := m.name, verb := m.verb, path := resolvedPath base m.path,
+    requestSchema := requestName m.name, responseSchema := (producedOutput pkg m.name m.hasResp).name }
+
+theorem structureMethod_valid (pkg : Str) (base : Option Str) (m : MethodDecl) (h : ValidMethod base m) :
+    structureMethod pkg (compiledMethod pkg base m) = .ok (structuredMethod base m pkg) := by
+  unfold structureMethod
+  have hacc : acceptMethod pkg (compiledMethod pkg base m).name (compiledMethod pkg base m).input
+      (compiledMethod pkg base m).output = true := acceptMethod_produced pkg m.name m.hasResp
+  simp only [hacc, Bool.not_true, Bool.false_eq_true, if_false]
+  have hrt : unrewrite (compiledMethod pkg base m).fields (compiledMethod pkg base m).pattern =
+      .ok (resolvedPath base m.path) :=
+    path_roundtrip m.req _ _ h.1 h.2.1 (rewrite_ok_of_params m.req _ h.2.2)
+  rw [hrt]
+  rfl
+
+theorem clientMethod_valid (pkg : Str) (base : Option Str) (m : MethodDecl) :
+    clientMethod (structuredMethod base m pkg) ((compiledMethod pkg base m).fields.map (·.json)) =
+      declaredMethod base m := by
+  unfold clientMethod declaredMethod structuredMethod compiledMethod
+  simp only [fieldsOf_json]
+  cases hr : m.hasResp with
+  | false =>
+    have : isRawResponse (producedOutput pkg m.name false).name = true := httpBody_is_raw _ _
+    simp [this]
+  | true =>
+    simp [producedOutput, responseName_not_raw]
+
+theorem mapMOutcome_map_ok {α β γ} (f : β → Outcome γ) (c : α → β) (g : α → γ) (l : List α)
+    (h : ∀ a ∈ l, f (c a) = .ok (g a)) : mapMOutcome f (l.map c) = .ok (l.map g) := by
+  induction l with
+  | nil => rfl
+  | cons a as ih =>
+    simp only [List.map_cons]
+    unfold mapMOutcome
+    rw [h a (by simp), ih (fun x hx => h x (List.mem_cons_of_mem _ hx))]
+
+theorem chainService_valid (pkg : Str) (s : ServiceDecl) (h : ValidService s) :
+    chainService pkg s = .ok (declaredService s) := by
+  unfold chainService compileService
+  rw [mapMOutcome_ok _ (compiledMethod pkg s.base) s.methods
+    (fun m hm => compileMethod_valid pkg s.base m (h m hm))]
+  simp only []
+  unfold structureService
+  simp only [classify_service]
+  rw [mapMOutcome_map_ok (structureMethod pkg) (compiledMethod pkg s.base)
+    (fun m => structuredMethod s.base m pkg) s.methods
+    (fun m hm => structureMethod_valid pkg s.base m (h m hm))]
+  simp only []
+  unfold clientService declaredService
+  simp only [List.zip_map', List.map_map]
+  congr 2
+  apply List.map_congr_left
+  intro m _
+  exact clientMethod_valid pkg s.base m
 
 end J5V.Pipe
